@@ -679,9 +679,29 @@ def check_heap(rep, repo: Repo, pre: str = "") -> None:
            any(e.kind == "store" and e.target[0] == "idx" and e.target[1] == COLOR and removed(e.target[2], e.seq)
                and e.value == K("BLACK") for e in w.events),
            "remove() must set color[removed element] = BLACK")
+    def own(w0, guards):
+        """Guards minus argument validation: a test whose other arm leaves the function at once (raise / `return False` /
+        bare return) and that reads nothing but the arguments, the capacity and the colour of the argument."""
+        exits = [x for x in w0.events if x.kind == "raise" or (x.kind == "return" and x.fn is w0.entry
+                                                               and x.value in (("const", False), ("const", None)))]
+        prm = {("param", q) for q in w0.entry.params}
+
+        def arg_only(t):
+            for u in subterms(t):
+                if u[0] in ("attr",) and u not in (SIZE, COLOR, ("attr", SELF, "size"), ("attr", SELF, "color")) and u[1] == SELF:
+                    return False
+                if u[0] == "idx" and u[1] in (P, POS, COST):
+                    return False
+                if u[0] == "call":
+                    return False
+            return any(u in prm for u in subterms(t))
+        return tuple((g, pol) for g, pol in guards
+                     if not (arg_only(g) and any(x.guards and x.guards[-1] == (g, not pol) for x in exits)))
+
     w = W["update"]
     pup, cup = ("param", w.entry.params[1]), ("param", w.entry.params[2])
-    cs = [e for e in w.events if e.kind == "store" and e.target == ("idx", COST, pup) and e.value == cup and not e.guards]
+    cs = [e for e in w.events if e.kind == "store" and e.target == ("idx", COST, pup) and e.value == cup
+          and not own(w, e.guards)]
     rep.fn(pre + "H5-update-cost", w.entry, "update stores the new cost unconditionally", len(cs) == 1,
            "update(p, cost) must set cost[p] = cost")
     white = ("cmp", "==", *sorted([K("WHITE"), ("idx", COLOR, pup)], key=repr))
@@ -695,8 +715,30 @@ def check_heap(rep, repo: Repo, pre: str = "") -> None:
         return f[0] == "cmp" and f[1] in ("==", "!=") and ("idx", COLOR, pup) in (f[2], f[3]) and \
             any(x[0] == "K" and x[1] in ("WHITE", "GRAY", "BLACK") for x in (f[2], f[3]))
 
+    # a policy-aware direction: `update` may send a queued element whose key got WORSE down instead of up - then, per
+    # policy, go_down must be taken exactly when the new cost is worse than the one it replaces, go_up otherwise
+    direction = {}
+    downs = [e for e in w.events if e.kind == "call" and e.name == "go_down" and e.args == (("idx", POS, pup),)]
+    if downs:
+        helper_u = lambda f: f.cls == "Heap" and f.name.startswith("_") and not f.name.startswith("__")
+        for pol in ("min", "max"):
+            wu = Walker(repo, repo.need_method("Heap", "update"), self_class="Heap", inline=helper_u,
+                        subst={POLICY: ("const", pol), **nil_subst(repo)})
+            prev = ("idx", COST, pup)
+            worse = ("cmp", "<", prev, cup) if pol == "min" else ("cmp", "<", cup, prev)
+            du = [x for x in wu.events if x.kind == "call" and x.name == "go_down" and x.args == (("idx", POS, pup),)]
+            uu = [x for x in wu.events if x.kind == "call" and x.name == "go_up" and x.args == (("idx", POS, pup),)]
+            fd = [{deep_strip(f) for f in facts(own(wu, x.guards)) if not colour_fact(f)} for x in du]
+            fu = [{deep_strip(f) for f in facts(own(wu, x.guards)) if not colour_fact(f)} for x in uu]
+            okd = len(du) == 1 and len(uu) == 1 and fd[0] == {worse} and fu[0] == {mk_not(worse)}
+            direction[pol] = okd
+            rep.fn(pre + "H5-update-direction", wu.entry, f"update sifts down exactly when the new key is worse  [{pol}]", okd,
+                   "the direction of the sift after an update must follow the policy: down when the new cost is worse than the "
+                   "old one (larger for min, smaller for max), up otherwise")
     for e in up:
-        extra = [f for f in facts(e.guards) if not colour_fact(f)]
+        extra = [f for f in facts(own(w, e.guards)) if not colour_fact(f)]
+        if direction and all(direction.values()):
+            extra = []  # decided per policy above
         # (`if pos > 0: go_up(pos)` is go_up(pos): the sift loop runs while the position is > 0)
         extra = [f for f in extra if f not in (("cmp", "<", ("const", 0), e.args[0]), ("cmp", "<=", ("const", 1), e.args[0]),
                                                 ("cmp", "!=", *sorted([("const", 0), e.args[0]], key=repr)))]
@@ -793,7 +835,7 @@ def check_heap(rep, repo: Repo, pre: str = "") -> None:
                 return True
             return len(lst0) == 1 and not lst0[0].aug and strip_old(t) == strip_old(lst0[0].value)
         for e in eff:
-            extra = [f for f in facts(e.guards) if f != guard]
+            extra = [f for f in facts(own(w, e.guards)) if f != guard]
             allowed = e.kind == "call" and e.name == "go_down" and all(
                 f[0] == "cmp" and ((f[1] == "<" and f[2] == ("const", 0) and new_last(f[3]))
                                    or (f[1] == "<=" and f[2] == ("const", 1) and new_last(f[3]))) for f in extra) \
